@@ -1444,6 +1444,15 @@ func rv4ConsumedTextNotDropped(w *World) {
 
 // rwExplore: exploration only (VERIF_EXPLORE=1), never registered.
 func rwExplore(w *World) {
+	w.rule("RIX")
+	for _, rp := range w.Roots {
+		loops, bad, pos := rixScan(w, rp)
+		w.info("view-index|"+rp.PkgPath, 0, fmt.Sprint(loops, " loops"))
+		for i, m := range bad {
+			w.violation("view-index|"+m, pos[i], m)
+		}
+	}
+
 	w.rule("RT3")
 	for _, rp := range w.Roots {
 		rt3Scan(w, rp)
